@@ -18,7 +18,8 @@ BUDGET = {"quick": 120, "thorough": 900}
 RULE = ("Server-side store of 0-5 scripts with names from a look-alike list (OK, {3}, ACTIVE, 'a\" ACTIVE', x\\y, non-ASCII, "
         "spaces ...) and bodies built from look-alike lines (OK/NO/BYE, {5}, quoted, blank lines, CRLF/LF/mixed, no final "
         "newline, empty, multi-byte); one listscripts and one getscript per script, each string served quoted or literal "
-        "(drawn), listing order drawn, recv segmentation drawn. The first jobs stratify (name, encoding) and (body line, "
+        "(drawn), listing order drawn, recv segmentation drawn; in a fifth of the random runs the store first holds one damaged "
+        "item (a body or a name that is not UTF-8) which the client touches once before it is removed. The first jobs stratify (name, encoding) and (body line, "
         "position, encoding). Non-trivial: the value contained a look-alike / needed escaping / was served as a literal name "
         "or quoted body. Distinct = (call, value class, encoding).")
 COMPONENTS = {"real": ["sievelib.managesieve.Client"],
@@ -38,6 +39,7 @@ def text_lines(s):
 def run(ch, config, res):
     wl = ch.wl
     strat = config.get("strat")
+    corrupt = 0
     with ch.scope("run"):
         rsz = [4096, 1, 7, 64][wl.weighted("read_size", [6, 1, 1, 1])]
         n = wl.int("nscripts", 6)
@@ -73,8 +75,16 @@ def run(ch, config, res):
                 srv.scripts[nm] = gen.body(wl, "body")
             if srv.scripts and wl.flag("active", 2, 3):
                 srv.active = wl.pick("activeidx", list(srv.scripts))
+            # damaged stored data (a legacy ISO-8859-1 script, or a name that is not UTF-8): what the client makes of the
+            # damaged item itself is not constrained; once it is gone everything else must still come back exactly
+            corrupt = wl.weighted("corrupt", [8, 1, 1])
     for nm in srv.scripts:
         assert name_ok(nm), nm
+    BAD_BODY_NAME, BAD_NAME = b"legacy-latin1", b"caf\xe9-latin1"
+    if strat is None and corrupt == 1:
+        srv.scripts[BAD_BODY_NAME] = b"# r\xe9ponse automatique\r\nkeep;\r\n"
+    elif strat is None and corrupt == 2:
+        srv.scripts[BAD_NAME] = b"keep;\r\n"
     armed = [False]
     if forced_lit is not None:
         srv.lit_hook = lambda kind, val: (forced_lit if (kind == "data" and armed[0]) else None)
@@ -85,6 +95,16 @@ def run(ch, config, res):
             o = world.call(client, "connect", "user", "password")
         if o.kind == "ret" and o.value is True:
             armed[0] = True
+            if strat is None and corrupt:
+                with ch.scope("damaged"):
+                    if corrupt == 1:
+                        world.call(client, "getscript", BAD_BODY_NAME.decode())
+                        del srv.scripts[BAD_BODY_NAME]
+                    else:
+                        world.call(client, "listscripts")
+                        del srv.scripts[BAD_NAME]
+                res.count("fault:damaged-stored-%s" % ("body" if corrupt == 1 else "name"))
+
             def check_listing(scope, again=""):
                 with ch.scope(scope):
                     o = world.call(client, "listscripts")
